@@ -112,6 +112,7 @@ fn main() {
         "c17h3" => c17::live_h3(&mut ctx),
         "c18h3" => c18::run_h3(&mut ctx),
         "c19live" => c19::run_live(&mut ctx),
+        "c04live" => c04::run_live(&mut ctx),
         "c14est" => c10::run_establish(&mut ctx),
         "c14live" => c14live::run(&mut ctx),
         "c11" => c11::run(&mut ctx),
